@@ -83,6 +83,7 @@ func init() {
 			`at every index / slice-bound / make-size / divisor / lake-pool-call sink the value must be covered by a two-sided range guard (or an equality with trusted data) ` +
 			`established by dominating branch outcomes, directly or through a boolean/error validator function. R10.len: every slicing of the untrusted-length ` +
 			`slice SignatureInfo.Hashes needs a dominating comparison of the same bound with len() of that slice. ` +
+			`R10.space: an index is never related to both builds' file lists (a bound check against the other build's container does not protect the use). ` +
 			`NOT decided: nil-dereference and type-assertion panics, non-termination, truncation handling inside io/proto libraries, compressed framing, values passed through channels or slice elements.`,
 		Assumptions: []string{
 			"tlc.Container messages are well-formed and no frame declares a length beyond the stream (C10's own preconditions)",
@@ -120,6 +121,9 @@ func runC10(c *core.Ctx) {
 	c.Floor("R10.sink", "sinks reached by wire-derived values", nsinks, 6)
 	c.Stats["R10.unresolved_dynamic_calls"] = e.UnresolvedDyn
 	untrustedLenRule(c, "R10.len", "pwr", "SignatureInfo", "Hashes", 1)
+	// a range check against the WRONG container is no check: index-space consistency
+	c.Rule("R10.space", "no file index is checked against / used with both the old and the new build's file list (index-space consistency, shared with R02.6)")
+	ruleIndexSpaces(c, "R10.space")
 }
 
 // reportTaint turns sinks into obligations.
